@@ -16,6 +16,7 @@ import Hdl21Model.Drv.Runner
 import Hdl21Model.Drv.Names
 import Hdl21Model.Drv.RoundTrip
 import Hdl21Model.Drv.ExportWF
+import Hdl21Model.Drv.ConnTypes
 open Lean
 
 /-- Line protocol: one JSON object per input line `{"prop": "C03", "op": ..., ...}`,
@@ -42,6 +43,7 @@ def dispatch (j : Json) : Except String Json := do
   | "NAMES" => Hdl21.Drv.Names.handle op j
   | "RT" => Hdl21.Drv.RoundTrip.handle op j
   | "EWF" => Hdl21.Drv.ExportWF.handle op j
+  | "CT" => Hdl21.Drv.ConnTypes.handle op j
   | "SEM" => Hdl21.Drv.Sem.handle op j
   | _ => .error s!"unknown prop {prop}"
 
